@@ -102,6 +102,29 @@ theorem distMatrix_depends_on_weighted_columns (c : Cfg ℝ) (ws' : Option (List
     distMatrix { c with weights := ws' } rows' r1min r1max r2min r2max = distMatrix c rows r1min r1max r2min r2max :=
   distMatrix_of_colEquiv c ws' rows rows' k hk hwf hwf' hn hint hraw heq r1min r1max r2min r2max
 
+/-- non-vacuity of the master theorem: the non-exempt option sets exist (every model with `countgapmut` 0 or 2,
+the five corrected models with any value), and two presentations with `ColEquiv 2`: `AC` / `AG` with
+weights 2, 4 against `CAA` / `GAA` with weights 2, 1, 1 (column `A/A` split in two) -/
+example : (∀ m : DModel, usesInternalGaps m 0 = false ∧ usesInternalGaps m 2 = false) ∧
+    usesInternalGaps .tn93 1 = false ∧
+    ColEquiv 2 (colsOf [[65, 67], [65, 71]] (some [2, 4])) (colsOf [[67, 65, 65], [71, 65, 65]] (some [2, 0.5, 0.5])) := by
+  refine ⟨fun m => by cases m <;> exact ⟨by decide, by decide⟩, by decide, ?_, ?_⟩
+  · intro x
+    have hr2 : List.range 2 = [0, 1] := by decide
+    have hr3 : List.range 3 = [0, 1, 2] := by decide
+    simp only [colsOf, alnLen, weightAt, List.headD_cons, List.length_cons, List.length_nil, Nat.zero_add,
+      Nat.reduceAdd, hr2, hr3, List.map_cons, List.map_nil, List.getD_cons_zero, List.getD_cons_succ,
+      List.mem_cons, List.mem_nil_iff, or_false]
+    tauto
+  · intro x
+    simp only [colsOf, alnLen, weightAt, colWeight, List.headD_cons, List.length_cons, List.length_nil]
+    have hr2 : List.range 2 = [0, 1] := by decide
+    have hr3 : List.range 3 = [0, 1, 2] := by decide
+    simp only [Nat.zero_add, Nat.reduceAdd, hr2, hr3, List.map_cons, List.map_nil, List.getD_cons_zero,
+      List.getD_cons_succ, List.filter_cons, List.filter_nil]
+    by_cases h1 : ([65, 65] : List Byte) = x <;> by_cases h2 : ([67, 71] : List Byte) = x <;>
+      simp [h1, h2] <;> norm_num
+
 /-- pair level, including `rawdist`: every estimator is unchanged and the raw distance is multiplied by `k` -/
 theorem pair_distance_depends_on_weighted_columns (c : Cfg ℝ) (ws' : Option (List ℝ)) (rows rows' : List Seq)
     (k : ℝ) (hk : k ≠ 0) (hwf : WF rows c.weights) (hwf' : WF rows' ws') (hn : rows'.length = rows.length)
